@@ -181,7 +181,8 @@ Proof.
   intros tid src dst snaps sp dp Hsrc Hold Hnew.
   assert (forall b, In b (flat_map (reach tid) snaps) -> dp b = sp b) as Hall.
   { intros b Hb. destruct (has dst b) eqn:Ed; [apply Hold; assumption|]. apply Hnew.
-    unfold needed. apply filter_In. split; [apply seen_covers_reach; exact Hb|]. rewrite Ed, (Hsrc b Hb). reflexivity. }
+    unfold needed. apply filter_In. split; [apply seen_covers_reach; exact Hb|].
+    change copy_skips_ids_unknown_to_source with true. cbv iota. rewrite Ed, (Hsrc b Hb). reflexivity. }
   split; [exact Hall|]. intros t p n Ht Hp Hk. apply map_ext_in. intros i Hi. apply Hall.
   apply in_flat_map. exists t. split; [exact Ht|]. unfold reach. right.
   eapply reach_file_chunk; [apply Nat.le_refl | exact Hp | exact Hk | exact Hi].
